@@ -49,7 +49,7 @@ Proof. intros rt E noop_leaf orders Hu Hm Lu Lm T fuel x. split.
    on the implementation, and a toy runtime; a value of depth 3 is converted at every level *)
 Definition toy_rt : runtime := mk_runtime
   [ (0, PAtom 7, Ok (PAtom 70)) ] [ (0, PAtom 70, Ok (PAtom 7)) ]
-  [ (PAtom 9, Ok (PAtom 9)); (PAtom 7, Raise EValue) ] [] [] [] [] [] [] [] (PAtom 9) [EValue; EType].
+  [ (PAtom 9, Ok (PAtom 9)); (PAtom 7, Raise EValue) ] [] [] [] [] [] [] [] [] (PAtom 9) [EValue; EType].
 Definition exOrders (t : ty) : option (list node) :=
   match t with TSeq KList (TName 0) => Some (exOrder ++ [exRoot]) | _ => None end.
 Definition wire (v : pv) (kids : list pv) : pv := PDict KDict [(PKey 0, PSeq KList kids); (PKey 1, v)].
